@@ -537,3 +537,73 @@ Lemma unrepaired_witness :
   get_pos_pair_unrepaired [97; 10; 98] 4 = (2, 4) /\ get_pos_pair_res [97; 10; 98] 4 = Some (1, 2) /\
   get_pos_pair_unrepaired [] 1 = (1, 1) /\ get_pos_pair_res [] 1 = Some (0, 1).
 Proof. vm_compute. repeat split. Qed.
+
+(* ------------------------------------------------------------------------------------------ *)
+(* the same facts read on the BYTES of the text (what `match_indices('\n')` and the byte offsets
+   of the Rust code see): a newline byte occurs exactly at newline code points, because every
+   byte of a multi-byte UTF-8 sequence is >= 128                                               *)
+
+Ltac zify_divmod := Z.div_mod_to_equations.
+
+Lemma length_utf8_encode c : Z.of_nat (length (utf8_encode c)) = utf8_len c.
+Proof. unfold utf8_encode, utf8_len. repeat destruct (_ <? _); reflexivity. Qed.
+
+Lemma length_utf8_bytes s : Z.of_nat (length (utf8_bytes s)) = byte_len s.
+Proof.
+  induction s as [|c r IH]; [reflexivity|].
+  unfold utf8_bytes in *. cbn [flat_map byte_len]. rewrite app_length, Nat2Z.inj_add, IH, length_utf8_encode.
+  reflexivity.
+Qed.
+
+Lemma utf8_bytes_app a b : utf8_bytes (a ++ b) = utf8_bytes a ++ utf8_bytes b.
+Proof. unfold utf8_bytes. apply flat_map_app. Qed.
+
+Lemma utf8_encode_no_nl c b : valid_cp c -> c <> 10 -> In b (utf8_encode c) -> b <> 10.
+Proof.
+  unfold valid_cp, utf8_encode. intros Hv Hc Hin.
+  destruct (c <? 128) eqn:E1; [cbn in Hin; lia|]. apply Z.ltb_ge in E1.
+  destruct (c <? 2048); [|destruct (c <? 65536)]; cbn [In] in Hin;
+    repeat (destruct Hin as [<-|Hin]; [zify_divmod; lia|]); destruct Hin.
+Qed.
+
+Lemma utf8_bytes_no_nl p b : Forall valid_cp p -> ~ In 10 p -> In b (utf8_bytes p) -> b <> 10.
+Proof.
+  intros Hv Hn Hin. unfold utf8_bytes in Hin. apply in_flat_map in Hin. destruct Hin as (c & Hc & Hb).
+  apply (utf8_encode_no_nl c b); [exact (proj1 (Forall_forall _ _) Hv c Hc)| |exact Hb].
+  intros ->. exact (Hn Hc).
+Qed.
+
+(* number of newline BYTES = number of newline code points *)
+Lemma count_nl_bytes s : Forall valid_cp s ->
+  Z.of_nat (count_occ Z.eq_dec (utf8_bytes s) 10) = count_nl s.
+Proof.
+  induction s as [|c r IH]; intros Hv; [reflexivity|].
+  inversion Hv as [|? ? Hc Hr]; subst.
+  change (utf8_bytes (c :: r)) with (utf8_encode c ++ utf8_bytes r).
+  rewrite count_occ_app, Nat2Z.inj_add, (IH Hr). cbn [count_nl]. f_equal.
+  destruct (c =? 10) eqn:E.
+  - apply Z.eqb_eq in E. subst c. reflexivity.
+  - apply Z.eqb_neq in E.
+    replace (count_occ Z.eq_dec (utf8_encode c) 10) with 0%nat; [reflexivity|].
+    symmetry. apply count_occ_not_In. intros Hin. exact (utf8_encode_no_nl c 10 Hc E Hin eq_refl).
+Qed.
+
+(* no newline byte in [line start, index) *)
+Lemma get_pos_pair_no_nl_between s i : Forall valid_cp s -> 0 <= i <= byte_len s ->
+  exists l c, get_pos_pair_res s i = Some (l, c) /\ line_start s l + c = i /\
+    forall j, line_start s l <= j < i -> nth (Z.to_nat j) (utf8_bytes s) 0 <> 10.
+Proof.
+  intros Hv Hi. destruct (get_pos_pair_in_range s i Hi) as (l & c & Hres & Hl & Hc & Hsum & Hlen).
+  exists l, c. split; [exact Hres|]. split; [exact Hsum|]. intros j Hj.
+  destruct (raw_line_decomp s l Hl) as (x & z & Hs & Hx & _).
+  pose proof (line_start_nonneg s l) as Hst.
+  assert (Hvp : Forall valid_cp (line s l)).
+  { apply Forall_forall. intros a Ha. apply (proj1 (Forall_forall _ _) Hv).
+    rewrite Hs. apply in_or_app. right. apply in_or_app. left. exact Ha. }
+  assert (Hnl : ~ In 10 (line s l)).
+  { pose proof (length_lines_of s). apply (lines_of_no_nl s). unfold line. apply nth_In. lia. }
+  rewrite Hs, !utf8_bytes_app.
+  pose proof (length_utf8_bytes x) as Lx. pose proof (length_utf8_bytes (line s l)) as Lp.
+  rewrite app_nth2 by lia. rewrite app_nth1 by lia.
+  apply (utf8_bytes_no_nl (line s l)); [exact Hvp|exact Hnl|]. apply nth_In. lia.
+Qed.
